@@ -169,6 +169,10 @@ pub fn take_until_unbalanced<'a>(
         let mut index = 0;
         let mut bracket_counter = 0;
         'consume: loop {
+            // end of input: nothing left to inspect (also covers the empty input)
+            if index >= i.len() {
+                break 'consume;
+            }
             let input = i.slice(index..);
 
             if tag::<&str, Input<'_>, Error<Input<'_>>>(opening_tag)(input.clone()).is_ok() {
@@ -177,8 +181,6 @@ pub fn take_until_unbalanced<'a>(
             } else if tag::<&str, Input<'_>, Error<Input<'_>>>(closing_tag)(input).is_ok() {
                 bracket_counter -= 1;
                 index += closing_tag.len();
-            } else if index == i.len() - 1 {
-                break 'consume;
             } else {
                 let c = i.slice(index..).inner().chars().next().unwrap_or_default();
                 index += c.len_utf8();
